@@ -199,6 +199,9 @@ func run(r *mon.Report, tier string, idx int, rng *rand.Rand) {
 	cfg.MaxDaemons = 1
 	cfg.Pool.PCustomLabel = 0.1
 	cfg.Catalog.MinTypes, cfg.Catalog.MaxTypes = 4, 10
+	if rng.Intn(3) == 0 {
+		cfg.Catalog.PZeroPrice = 0.08 // free offerings (a price overlay of "0" / "-100%")
+	}
 	cfg.PerPoolCatalog = rng.Intn(3) == 0
 	if rng.Intn(3) == 0 {
 		cfg.MinPools = 3
